@@ -25,6 +25,8 @@ pub struct OwnState {
     pub time: u64,
     /// sub-second part of the block time (the reference machine works in whole seconds, like the statement)
     pub nanos: u32,
+    /// index of the chain id the history runs under
+    pub chain: u8,
     // reference machine
     pub admin: String,
     pub nominee: Option<String>,
@@ -56,12 +58,17 @@ pub fn principals() -> Vec<String> {
 thread_local! {
     /// sub-second part of the block time of the step being executed (block headers carry nanoseconds)
     static NANOS: std::cell::Cell<u32> = const { std::cell::Cell::new(0) };
+    /// which chain the step runs on (index into CHAIN_IDS)
+    static CHAIN: std::cell::Cell<u8> = const { std::cell::Cell::new(0) };
 }
+/// the rest of the environment is part of the input too: the simulator's own chain id, the testnet and the
+/// main net of the deployment scripts, an Initia rollup
+const CHAIN_IDS: [&str; 4] = ["sim-1", "osmo-test-5", "osmosis-1", "minimove-1"];
 
 fn env(time: u64) -> Env {
     let nanos = NANOS.with(|c| c.get());
     Env {
-        block: BlockInfo { height: 1, time: Timestamp::from_nanos(time * 1_000_000_000 + nanos as u64), chain_id: "sim-1".into() },
+        block: BlockInfo { height: 1, time: Timestamp::from_nanos(time * 1_000_000_000 + nanos as u64), chain_id: CHAIN_IDS[CHAIN.with(|c| c.get()) as usize % CHAIN_IDS.len()].into() },
         transaction: Some(TransactionInfo { index: TX_INDEX }),
         contract: ContractInfo { address: Addr::unchecked(if true { contract_addr() } else { String::new() }) },
     }
@@ -221,11 +228,14 @@ impl Scenario for OwnScenario {
     }
     fn seeds(&self) -> Vec<(String, OwnState)> {
         NANOS.with(|c| c.set(0));
+        CHAIN.with(|c| c.set(0));
         let kv = match self.which {
             Which::Staking => World::new(&K::k0()).expect("instantiate").kv,
             Which::Treasury => treasury_kv(&p20("adm"), &p20("trader"), vec![]),
         };
-        vec![("fresh".into(), OwnState { which: self.which, kv, time: T0, nanos: 0, admin: p20("adm"), nominee: None, earliest: None, handovers: 0, noise: 0 })]
+        (0..CHAIN_IDS.len() as u8)
+            .map(|chain| (format!("fresh@{}", CHAIN_IDS[chain as usize]), OwnState { which: self.which, kv: kv.clone(), time: T0, nanos: 0, chain, admin: p20("adm"), nominee: None, earliest: None, handovers: 0, noise: 0 }))
+            .collect()
     }
     fn actions(&self, s: &OwnState) -> Vec<OwnAct> {
         let ps = principals();
@@ -261,6 +271,7 @@ impl Scenario for OwnScenario {
         let mut violations = vec![];
         let mut tags = vec![];
         NANOS.with(|c| c.set(s.nanos));
+        CHAIN.with(|c| c.set(s.chain));
         if let OwnAct::Advance { to, nanos } = a {
             n.time = *to;
             n.nanos = *nanos;
@@ -349,6 +360,7 @@ impl Scenario for OwnScenario {
     }
     fn on_state(&self, s: &OwnState) -> StateObs {
         NANOS.with(|c| c.set(s.nanos));
+        CHAIN.with(|c| c.set(s.chain));
         let mut o = StateObs::default();
         // exactly the reference admin has admin rights (a former admin has none)
         let mut with_rights: Vec<String> = vec![];
